@@ -53,7 +53,12 @@ def run(tier):
             edits.append(("mixed-%s@%d" % (kind, t), nb))
     cfgs = [{"comp": 0, "manual": False, "full": 1, "chunk": 3}, {"comp": 2, "manual": False, "full": 1, "chunk": 3, "level": 3},
             {"comp": 2, "manual": False, "full": 1, "chunk": 3, "level": 3, "dict": True}, {"comp": 0, "manual": False, "full": 1, "chunk": 1, "max": 20000},
-            {"comp": 2, "manual": False, "full": 1, "chunk": 1, "level": 1, "max": 9000, "min": 9000}, {"comp": 0, "manual": False, "full": 0, "chunk": 2, "dict": True, "min": 20000, "max": 100000}]
+            {"comp": 2, "manual": False, "full": 1, "chunk": 1, "level": 1, "max": 9000, "min": 9000}, {"comp": 0, "manual": False, "full": 0, "chunk": 2, "dict": True, "min": 20000, "max": 100000},
+            # configured limits that cross the automatic ones (average/4 = 8192, average*4 = 131072): the effective
+            # minimum follows the maximum down, and a configured minimum above 128 KiB is cut to the automatic maximum
+            {"comp": 0, "manual": False, "full": 1, "chunk": 3, "max": 4096}, {"comp": 0, "manual": False, "full": 1, "chunk": 1, "min": 100, "max": 6000},
+            {"comp": 0, "manual": False, "full": 1, "chunk": 3, "min": 200000, "max": 300000}, {"comp": 2, "manual": False, "full": 1, "chunk": 3, "level": 1, "max": 1000}]
+    CROSS = (6, 7, 8, 9)
     runs = []    # (cid, content name, cfg index, seg style, path)
     def add(cname, data, ci, seg):
         cid = "r%d" % len(runs)
@@ -63,11 +68,17 @@ def run(tier):
         runs.append((cid, cname, ci, seg, src, os.path.join(wd, cid + ".zck"), len(data)))
     for cname, data in contents:
         for ci in range(len(cfgs)):
-            if tier == "quick" and cname not in ("mixed",) and ci not in (0, 1, 3):
+            if tier == "quick" and cname not in ("mixed",) and ci not in (0, 1, 3) and not (ci in CROSS and cname == "rand"):
+                continue
+            if ci in CROSS and cname not in ("mixed", "rand"):
                 continue
             segs = ["whole", 32768, 1, 7, 8191, 100, 4096] if len(data) <= 70000 else ["whole", 32768, 8191, 100003, 7 if ci == 0 else 4099]
             if tier == "quick":
                 segs = segs[:5] if len(data) <= 70000 else segs[:3] + segs[4:]
+            if cname.startswith("dbl"):
+                segs = ["whole", 1, 4096, 5000, 32768, 150000]      # call edges inside / outside the first 8 KiB of the crafted chunk
+            if ci in CROSS and tier == "quick":
+                segs = ["whole", 8191] if cname == "mixed" else ["whole"]
             for sg in segs:
                 add(cname, data, ci, sg)
     for cname, data in edits:
@@ -127,6 +138,13 @@ def run(tier):
             ck.case(("pair", cname, ci))
     ck.extra["runs"] = len(runs); ck.extra["failed_runs"] = bad_runs
     crafted = [t for t in trace if t["op"] == "run" and t["content"].startswith("min+")]
+    # does the placement model (writegen.simulate_cuts) agree with the real chunker on the crafted contents?  (informative:
+    # a disagreement means the crafted inputs may miss their target, not that the property is violated)
+    agree = []
+    for t in trace:
+        if t["op"] == "run" and t["content"].startswith("dbl") and t["cfg"] == "cfg0" and t["seg"] == "whole":
+            agree.append((t["content"], [c["end"] for c in t["chunks"]][:-1] == writegen.simulate_cuts(cdata[t["content"]])))
+    ck.extra["placement_model_agrees_with_real_chunker"] = agree
     ck.extra["crafted_first_chunk_sizes"] = sorted({(t["content"], t["chunks"][0]["ulen"]) for t in crafted})
     # one long multi-run trace (state = all earlier runs); validate in one TLC process
     p = os.path.join(wd, "t.ndjson"); common.write_ndjson(p, trace)
